@@ -43,14 +43,14 @@ ENGINE_IMPORTS = ["github.com/gin-gonic/gin", "github.com/labstack/echo/v4", "gi
 VERSIONS = ["3.0.0", "3.1.0"]
 PERMS_REGEX = "^(0?[0-7]{3})?$"
 
-# mirror of the oracle-decided rules of Config.declared_schema (cross-checked in Gen_tags.v)
+# mirror of the oracle-decided rules of Config.declared_schema (cross-checked in Gen_tags.v).
+# The security scheme's `type` and `in` are declared as exact enumerations (ROneof); the tags decide
+# them by a registered function (an oracle rule) - Config.enum_claims / enum_sound_on tie the two.
 DECLARED_PREDS = [
     ("routesConfig.outputFilePerms", "regex", PERMS_REGEX),
     ("openapiGeneratorConfig.info.contact.email", "email", ""),
     ("openapiGeneratorConfig.baseUrl", "url", ""),
     ("openapiGeneratorConfig.securitySchemes.name", "starts_with_letter", ""),
-    ("openapiGeneratorConfig.securitySchemes.type", "security_schema_type", ""),
-    ("openapiGeneratorConfig.securitySchemes.in", "security_schema_in", ""),
     ("openapiGeneratorConfig.securitySchemes.openIdConnectUrl", "url", ""),
 ]
 
@@ -60,6 +60,7 @@ DECLARED_PREDS = [
 SOURCES = {
     "ctl/main.controller.go": ("ctl", "MainController", "/main", "/ping", "Ping"),
     "ctl/decoy.controller.go": ("ctl", "DecoyController", "/decoy", "/pong", "Pong"),
+    "ctl/admin.go": ("ctl", "AdminController", "/admin", "/peng", "Peng"),
     "ctl/sub/deep.controller.go": ("sub", "DeepController", "/deep", "/pung", "Pung"),
     "extra/other.controller.go": ("extra", "OtherController", "/other", "/pang", "Pang"),
 }
@@ -109,15 +110,89 @@ def make_template(name, broken):
     return d
 
 
+_GLOB_CACHE = {}
+
+
+def glob_one(template, g):
+    """The source files ONE glob expression matches (Python's glob; ** = zero or more directories).
+    How the expressions of a list combine is the model's business (Config.glob_hit)."""
+    key = (template, g)
+    if key not in _GLOB_CACHE:
+        hit = set()
+        if isinstance(g, str) and g:
+            hit = {os.path.normpath(m) for m in pyglob.glob(g, root_dir=template, recursive=True)}
+        _GLOB_CACHE[key] = {rel: (rel in hit) for rel in SOURCES}
+    return _GLOB_CACHE[key]
+
+
 def glob_matches(template, globs):
-    """Which source files the glob set matches (Python's glob; ** = zero or more directories)."""
-    hit = set()
-    for g in globs:
-        if not isinstance(g, str):
-            continue
-        for m in pyglob.glob(g, root_dir=template, recursive=True):
-            hit.add(os.path.normpath(m))
-    return {rel: (rel in hit) for rel in SOURCES}
+    """Union over the list (used only for the world's analysis_ok and for the input statistics)."""
+    return {rel: any(glob_one(template, g)[rel] for g in globs) for rel in SOURCES}
+
+
+def glob_variants(rel, rng, others):
+    """Expressions that match the file `rel` and none of `others` (files of the same directory)."""
+    d, base = os.path.split(rel)
+    stem = base.split(".")[0]
+    cands = ["./" + rel, rel]
+    for k in range(1, len(stem) + 1):
+        pre = stem[:k]
+        if not any(os.path.basename(o).startswith(pre) for o in others):
+            cands += ["./%s/%s*.go" % (d, pre), "./**/%s*.go" % pre, "%s/%s*" % (d, pre), "./%s/%s*.*" % (d, pre)]
+            break
+    return cands
+
+
+def splits_a_directory(template, globs):
+    """Some directory gets files from two different expressions, one of which does not take them all."""
+    per = [{f for f, v in glob_one(template, g).items() if v} for g in globs]
+    for a in range(len(per)):
+        for b in range(len(per)):
+            if a != b:
+                da = {os.path.dirname(f) for f in per[a]}
+                if any(os.path.dirname(f) in da and f not in per[a] for f in per[b]):
+                    return True
+    return False
+
+
+def split_glob_lists(rng, n):
+    """Glob lists whose expressions PARTITION one directory (each expression takes some files of a
+    directory another expression also takes files of), in every order, optionally with an expression
+    for another directory or a catch-all before/after.  The property quantifies over all glob sets;
+    the list is a set (C20_globs_order_irrelevant), a later expression adds files (C20_globs_monotone)."""
+    by_dir = {}
+    for rel in SOURCES:
+        by_dir.setdefault(os.path.dirname(rel), []).append(rel)
+    dirs = sorted(d for d, fs in by_dir.items() if len(fs) >= 2)
+    out = []
+    for i in range(n):
+        d = dirs[i % len(dirs)]
+        fs = list(by_dir[d])
+        rng.shuffle(fs)
+        k = rng.randint(2, len(fs))
+        chosen = fs[:k]
+        gl = [rng.choice(glob_variants(f, rng, [x for x in by_dir[d] if x != f])) for f in chosen]
+        extra = rng.choice([None, None, ("pre", "./extra/*.go"), ("post", "./extra/*.go"), ("post", "./ctl/sub/*.go"),
+                            ("post", "./**/*.controller.go"), ("pre", "./nomatch/*.go"), ("post", "./%s/*.go" % d)])
+        if extra:
+            gl = [extra[1]] + gl if extra[0] == "pre" else gl + [extra[1]]
+        out.append(gl)
+    return out
+
+
+# fixed shapes: two exact files of one directory in both orders, pattern + recursive pattern, a
+# catch-all first / last, three-way split, duplicates, nested directory first
+SPLIT_GLOB_SETS = [
+    ["./ctl/main.controller.go", "./ctl/decoy.controller.go"],
+    ["./ctl/decoy.controller.go", "./ctl/main.controller.go"],
+    ["./ctl/m*.go", "./**/d*.controller.go"],
+    ["./**/*.controller.go", "./ctl/admin.go"],
+    ["./ctl/admin.go", "./**/*.controller.go"],
+    ["./ctl/main.controller.go", "./ctl/*.go"],
+    ["./ctl/admin.go", "./ctl/decoy.controller.go", "./ctl/main.controller.go"],
+    ["./ctl/sub/*.go", "./ctl/a*.go", "./extra/*.go", "./ctl/main.controller.go"],
+    ["./ctl/decoy.controller.go", "./ctl/decoy.controller.go", "ctl/admin.go"],
+]
 
 
 # ------------------------------------------------------------------ configurations
@@ -295,6 +370,35 @@ CORRUPTIONS = [
     ("type:info-string", [], _set([OC, "info"]), ["x"]),
     ("type:globs-string", ["commonConfig"], _set(["commonConfig", "controllerGlobs"]), ["./*.go"]),
     ("type:flag-string", [], _set([RC, "skipGenerateDateComment"]), ["yes"]),
+]
+
+
+
+def case_variants(legal):
+    """Spellings of the legal values of an enum-valued field that differ from every legal value only
+    in letter case (upper, lower, capitalised, swapped, first letter flipped)."""
+    out = []
+    for v in legal:
+        for x in (v.upper(), v.lower(), v.capitalize(), v.swapcase(), v[:1].swapcase() + v[1:], v.title()):
+            if x not in legal and x not in out:
+                out.append(x)
+    return out
+
+
+SCHEME_TYPES = ["apiKey", "http", "oauth2", "openIdConnect"]
+SCHEME_INS = ["header", "query", "cookie"]
+HTTP_SCHEMES = ["basic", "bearer", "digest"]
+
+# enum-valued fields: every case variant of every legal value must be refused up front, naming the
+# field, nothing written (the value would be copied verbatim into the artifacts).  The scheme whose
+# field is replaced is the one that legally carries the value's lower-case spelling.
+_SCHEME_OF_TYPE = {"apikey": 0, "http": 1, "oauth2": 2, "openidconnect": 3}
+ENUM_CASE = [
+    ("enum-case:engine", [], lambda c, v: setp(c, [RC, "engine"], v), case_variants(ENGINES)),
+    ("enum-case:scheme.type", ["securitySchemes"],
+     lambda c, v: setp(c, SS + [_SCHEME_OF_TYPE[v.lower()], "type"], v), case_variants(SCHEME_TYPES)),
+    ("enum-case:scheme.in", ["securitySchemes"], lambda c, v: setp(c, SS + [0, "in"], v), case_variants(SCHEME_INS)),
+    ("enum-case:scheme.scheme", ["securitySchemes"], lambda c, v: setp(c, SS + [1, "scheme"], v), case_variants(HTTP_SCHEMES)),
 ]
 
 # cross-field malformed security schemes (finding C20-scheme-shape)
@@ -499,10 +603,17 @@ class Oracle:
                 raise RuntimeError("oracle answers for %r differ between fields" % (k2,))
             self.ans[k2] = r
 
+    def rows(self):
+        return sorted(self.ans.items())
+
     def coq(self):
-        rows = ["(%s, %s, %s, %s)" % (cb(t), cb(p), cb(v), coq_bool(r))
-                for (t, p, v), r in sorted(self.ans.items())]
+        rows = ["(%s, %s, %s, %s)" % (cb(t), cb(p), cb(v), coq_bool(r)) for (t, p, v), r in self.rows()]
         return "[\n  " + ";\n  ".join(rows) + "\n]"
+
+    def breakers(self, out):
+        """Strings on which the real validator breaks Config.enum_claims (rows of this file's table)."""
+        rows = self.rows()
+        return {rows[i][0][2] for i in parse_nat_list(out, "enum_breakers") if i < len(rows)}
 
 
 GEN_TAGS = """(* generated by pygen/c20.py from `implrun tagdump` - do not edit *)
@@ -542,9 +653,14 @@ Definition orc : oracle := fun n p v =>
   match find (fun r => str_eqb (fst (fst (fst r))) n && str_eqb (snd (fst (fst r))) p && str_eqb (snd (fst r)) v) otable with
   | Some r => snd r | None => false end.
 Definition tbl_pre (t : list (str * N)) : str -> option N := fun p => assoc p t.
-Definition tbl_glob (t : list (list str * str * bool)) : list str -> str -> bool := fun gs f =>
-  match find (fun r => list_eqb str_eqb (fst (fst r)) gs && str_eqb (snd (fst r)) f) t with
+Definition tbl_glob (t : list (str * str * bool)) : str -> str -> bool := fun g f =>
+  match find (fun r => str_eqb (fst (fst r)) g && str_eqb (snd (fst r)) f) t with
   | Some r => snd r | None => false end.
+(* the enum claim (hypothesis enum_sound of the theorems) on every string the real validator was asked about *)
+Definition enum_ok := Eval vm_compute in enum_sound_on orc (map (fun r => snd (fst r)) otable).
+Definition enum_breakers := Eval vm_compute in
+  flat_map (fun ir => if enum_sound_on orc [snd (fst (snd ir))] then [] else [fst ir])
+           (combine (seq 0 (List.length otable)) otable).
 Definition files : list (str * list str) := %(files)s.
 Definition Wd pre um gl aok sok : world :=
   {| w_pre := tbl_pre pre; w_umask := um; w_files := files; w_glob := tbl_glob gl; w_analysis_ok := aok; w_spec_ok := sok |}.
@@ -582,6 +698,7 @@ Definition badcount := Eval vm_compute in
 Print diffs.
 Print fails.
 Print badcount.
+Print enum_breakers.
 """
 
 LIB_EVAL = """
@@ -599,7 +716,10 @@ Definition badcount := Eval vm_compute in
 Print disagree.
 Print propfail.
 Print badcount.
+Print enum_breakers.
 """
+
+ENUM_BREAKERS = set()      # strings on which the real validator broke the enum claim, over the whole run
 
 FIELD_RE = re.compile(r"Field '([^']*)' failed validation with tag '([^']*)'\. ")
 
@@ -659,6 +779,15 @@ def lib_cases(rng, tier):
                 c = config_with(present)
                 mut(c, v)
                 out.append(("corrupt:" + cls, c))
+    # enum-valued fields: every case variant of every legal value, on the maximal and the minimal base
+    for cls, needs, mut, values in ENUM_CASE:
+        for b in bases[:2]:
+            present = closed_subset(set(b) | set(needs))
+            for v in values:
+                c = config_with(present)
+                c[OC]["openapi"] = rng.choice(VERSIONS)
+                mut(c, v)
+                out.append(("corrupt:" + cls, c))
     # two faults at once
     for _ in range(40 if tier == "quick" else 400):
         a, b = rng.sample(CORRUPTIONS, 2)
@@ -694,6 +823,7 @@ def run_lib(cases, oracle, rng, tag="lib"):
         otext = oracle.coq()
         body = CASE_HEADER % dict(otable=otext, files="[]", defs=INTERN.defs()) + LIB_EVAL % dict(cases=ctext)
         out = run_coq_file(PROP, "%s_%d" % (tag, lo), body)
+        ENUM_BREAKERS.update(oracle.breakers(out))
         disagree += parse_nat_list(out, "disagree")
         propfail += parse_nat_list(out, "propfail")
         b = parse_nat_list(out, "badcount")
@@ -884,9 +1014,12 @@ def coq_cli_case(case, ob, templates):
                 if os.path.normpath(os.path.join("/x", rel)) == os.path.normpath(os.path.join("/x", s_)):
                     pre.append((s_, mode))
     analysis_ok = case["project"] == "good" or not any(gm.values())
+    gtab = []
+    for g in dict.fromkeys(globs):
+        gtab += [(g, f, v) for f, v in sorted(glob_one(tmpl, g).items())]
     world = "Wd %s %d%%N %s %s %s" % (
         coq_list(["(%s, %d%%N)" % (cb(p), m) for p, m in pre]), case["umask"],
-        coq_list(["(%s, %s, %s)" % (coq_strs(globs), cb(f), coq_bool(v)) for f, v in sorted(gm.items())]),
+        coq_list(["(%s, %s, %s)" % (cb(g), cb(f), coq_bool(v)) for g, f, v in gtab]),
         coq_bool(analysis_ok), coq_bool(ob["spec_ok"]))
     obs = "Ob %s %s %s %s %d" % (ob["status"], coq_pairs(ob["fields"]), coq_bool(ob["started"]),
                                  coq_list([coq_artifact(a) for a in ob["written"]]), len(ob["stray"]))
@@ -964,6 +1097,17 @@ def cli_cases(rng, tier):
         add("globs:%s" % "+".join(gs), c)
     c = config_with(closed_subset([x for x in OPT_NAMES if x != "controllerGlobs"]))
     add("globs:default", c)
+    # E2. glob lists that split one directory between their expressions (fixed shapes + generated), order included
+    split_sets = SPLIT_GLOB_SETS + split_glob_lists(rng, 7 * mult)
+    for i, gs in enumerate(split_sets):
+        c = config_with(full if i % 3 else closed_subset(["commonConfig", "controllerGlobs"]))
+        c["commonConfig"]["controllerGlobs"] = gs
+        c[RC]["engine"], c[OC]["openapi"] = ENGINES[(i + 3) % 5], VERSIONS[i % 2]
+        add("globs-split:%s" % "+".join(gs), c, command=["spec-and-routes", "spec-and-routes", "routes", "spec"][i % 4])
+        if i % 4 == 0 and len(gs) > 1:
+            c2 = copy.deepcopy(c)
+            c2["commonConfig"]["controllerGlobs"] = list(reversed(gs))
+            add("globs-split:%s" % "+".join(reversed(gs)), c2)
     # F. output paths
     for i, (rp, sp) in enumerate([("./gen/a/b/routes.gen.go", "./docs/api/openapi.json"), ("routes_out.go", "spec.json"),
                                   ("ABS/deep/r.go", "ABS/s/openapi31.json"), ("./out//r3.go", "./out/./o.json")]):
@@ -985,6 +1129,16 @@ def cli_cases(rng, tier):
                 c2 = config_with(frozenset(needs) | {x for nn in needs for o in OPTIONAL if o[0] == nn for x in o[2]})
                 mut(c2, v)
                 add("corrupt:" + cls, c2, project="good", pre=pre_both if j % 2 else {})
+    # H2. case variants of the legal values of the enum-valued fields
+    for j, (cls, needs, mut, values) in enumerate(ENUM_CASE):
+        vals = values if tier == "thorough" else [values[(j + k_) % len(values)] for k_ in range(0, len(values), max(1, len(values) // 4))][:4]
+        for n_, v in enumerate(vals):
+            c = config_with(full)
+            c[RC]["engine"], c[OC]["openapi"] = ENGINES[(j + n_) % 5], VERSIONS[n_ % 2]
+            mut(c, v)
+            proj = "good" if n_ % 2 else "broken"
+            add("corrupt:%s=%s" % (cls, v), c, project=proj, pre=pre_both if n_ % 4 == 0 else {},
+                command=["spec-and-routes", "spec-and-routes", "spec", "routes"][(j + n_) % 4])
     add("type:root-array", [], project="broken", pre=pre_both)
     add("null-root", None, project="broken")
     # I. control: a valid configuration on the unparsable project fails in the analysis
@@ -1041,6 +1195,7 @@ def run_cli(cases, cli, templates, oracle, tag="cli"):
         otext = oracle.coq()
         body = CASE_HEADER % dict(otable=otext, files=files, defs=INTERN.defs()) + CLI_EVAL % dict(cases=ctext)
         out = run_coq_file(PROP, "%s_%d" % (tag, lo), body)
+        ENUM_BREAKERS.update(oracle.breakers(out))
         dl, fl = parse_nat_list(out, "diffs"), parse_nat_list(out, "fails")
         diffs.update(dict(zip(dl[0::2], dl[1::2])))
         fails.update(dict(zip(fl[0::2], fl[1::2])))
@@ -1187,10 +1342,13 @@ def main():
         r_, o_, d_, p_, df_, fl_, _ = run_cli([case], cli, templates, oracle, "shrink")
         return r_[0], o_[0], bool(d_), bool(p_), df_, fl_
 
-    def shrink_cli(case):
-        """Drop optional parts and extra schemes while the property still fails."""
+    def shrink_cli(case, bits0=None):
+        """Drop optional parts while the property still fails FOR THE SAME REASON (a step that turns a
+        declared-constraint failure into a cross-field one, or the reverse, shows another defect)."""
         cur = copy.deepcopy(case)
         tries = 0
+        same = lambda fl_: bits0 is None or not fl_ or all(
+            decode_bits(list(fl_.values())[0], FAIL_NAMES).get(k) == bits0.get(k) for k in ("violates_declared", "cross_field_malformed"))
         for n, paths, _ in OPTIONAL:
             if tries >= 14 or not isinstance(cur["cfg"], dict):
                 break
@@ -1203,7 +1361,8 @@ def main():
             cand["text"] = render(cand["cfg"], rng, "json")
             cand["style"] = "json"
             tries += 1
-            if eval_one(cand)[3]:
+            ev_ = eval_one(cand)
+            if ev_[3] and same(ev_[5]):
                 cur = cand
         cur["id"], cur["dirname"] = 0, "shrunk"
         cur["text"] = render(cur["cfg"], rng, "json") if isinstance(cur["cfg"], dict) else cur["text"]
@@ -1235,7 +1394,7 @@ def main():
                       if ccases[i]["cls"].startswith("xfield:") else ccases[i]["cls"])
             continue
         if reported < 3:
-            small = shrink_cli(ccases[i])
+            small = shrink_cli(ccases[i], fb)
             r_, o_, _, still, _, fl_ = eval_one(small)
             if not still:
                 small, r_, o_, fl_ = ccases[i], runs[i], obs[i], {ccases[i]["id"]: fails[i]}
@@ -1257,7 +1416,7 @@ def main():
                        "claim": "prop_C20_load: a document violating the declared schema is refused and every violated field is named"})
 
     unexplained_dis = [i for i in cdis if i not in cpf]
-    if not res.violations and (not obligation or unexplained_dis or ldis or not method_ok):
+    if not res.violations and (not obligation or unexplained_dis or ldis or not method_ok or ENUM_BREAKERS):
         # the property is no longer shown: widen the search before saying so
         found = False
         if a.tier == "quick":
@@ -1277,6 +1436,10 @@ def main():
                                "detail": "declared_schema entries not covered by the translated tags (index in declared_schema): %s" % uncovered,
                                "note": "no configuration violating the declared constraint was accepted in %d library and %d CLI cases"
                                        % (len(lcases), len(ccases))}, no_input=True)
+            elif ENUM_BREAKERS:
+                res.violation({"kind": "proof-obligation", "obligation": "Config.enum_sound_on (hypothesis enum_sound of the C20 theorems)",
+                               "detail": "the real validator accepts, for an enum-valued security scheme field, strings outside the "
+                                         "exactly spelled enumeration: %s" % sorted(ENUM_BREAKERS)}, no_input=True)
             elif unexplained_dis:
                 i = unexplained_dis[0]
                 res.violation({"kind": "correspondence", "obligation": "corr:Config.cmd@case %d" % i,
@@ -1309,7 +1472,10 @@ def main():
                 "quick: each alone, all-but-one, 250 random), every single-field corruption class x values x {maximal, minimal} "
                 "base, random double corruptions, cross-field malformed schemes; CLI layer: the real binary in scratch projects "
                 "(5 engines x 2 versions, permission strings x fresh/existing output x umask, the three commands, glob sets with "
-                "decoy controllers, output paths, corruptions on a project whose sources do not parse). distinct = distinct "
+                "decoy controllers, glob LISTS whose expressions split one directory between them (fixed shapes + generated, both "
+                "orders; the per-expression matches are the oracle, the union over the list is the model's), output paths, "
+                "corruptions on a project whose sources do not parse, every case variant of every legal value of the enum-valued "
+                "fields (engine, scheme type/in/scheme) in the library layer and a rotation of them in the CLI layer). distinct = distinct "
                 "configuration texts (library) + distinct (text, command, project, pre-existing files, umask) (CLI)",
         "samples": [case_input(ccases[i]) | {"observed": {k: v for k, v in obs_summary(obs[i], runs[i]).items() if k != "log_tail"}}
                     for i in (0, len(ccases) // 2, len(ccases) - 1)],
@@ -1321,6 +1487,8 @@ def main():
             "cli_declared_violations": cbad[0], "cli_cross_field_malformed": cbad[1],
             "cli_projects": count(c["project"] for c in ccases), "cli_commands": count(c["command"] for c in ccases),
             "json5_styled": sum(1 for c in ccases if c["style"] == "json5"),
+            "cli_glob_lists_splitting_a_directory": sum(1 for c in ccases if splits_a_directory(templates["good"], effective_globs(c["cfg"]))),
+            "enum_case_variants": {cls: len(vals) for cls, _, _, vals in ENUM_CASE},
         },
         "traces_validated_against_impl": len(lcases) - len(ldis) + len(ccases) - len(cdis),
         "disagreements": {"library": len(ldis), "cli": len(cdis)},
@@ -1329,6 +1497,8 @@ def main():
         "reflection_obligation": {"name": "schema_at_least declared_schema Gen_tags.config_schema", "holds": obligation,
                                   "uncovered_declared_entries": uncovered, "translated_entries": n_actual,
                                   "declared_entries": n_declared, "oracle_rows": len(oracle.ans)},
+        "enum_claim": {"name": "Config.enum_sound_on orc <every string asked>", "holds": not ENUM_BREAKERS,
+                       "breaking_strings": sorted(ENUM_BREAKERS)},
         "observation_method_validated": method_ok,
         "timings": timings,
     })
@@ -1339,7 +1509,10 @@ def main():
         "min on strings counts bytes (ASCII generator alphabet); rules after a failing non-dive rule on a dived slice are not modelled",
         "source analysis is observable from outside only through its failure: refusals are run on a project whose sources do not "
         "parse (the parse error would show), plus file-system snapshots before/after every run",
-        "doublestar glob matching is an oracle (Python glob, recursive) for the generated glob shapes",
+        "doublestar matching of ONE glob expression against a file is an oracle (Python glob, recursive) for the generated "
+        "shapes; how the expressions of a list combine (union, order-free) is modelled and proved (C20_selected_ctrls)",
+        "the custom enum validators (security_schema_type/in) keep the enumeration exactly (hypothesis enum_sound): evaluated on "
+        "every string the check asks about, which includes all case variants of the legal values",
         "kin-openapi / libopenapi document validation is an oracle (w_spec_ok read from the run's log)",
         "routes-file permissions are modelled after patches/fix-F14.diff (chmod when outputFilePerms is configured)",
     ]
